@@ -5,78 +5,6 @@ open M
 
 /-! ### the core item inside ANY call of the chain -/
 
-/-- `run_with_core`, started from the machine that has just switched to call `k` -/
-theorem run_with_core_from (ic ic' : Ctx) (reg : List Ctx) (k : Call) (pre post : List Item) (calls2 : List Call)
-    (ctoks : List Tok) (hfl : ic'.flags = ic.flags) (hk : k.items = pre ++ post)
-    (m1 : M) (hr1 : Ready m1 k.ctx) (hi1 : m1.initial = some ic) (hg1 : m1.registry = reg)
-    (hitems : ItemsOK (some ic) reg false k.ctx k.items)
-    (hlast : calls2 ≠ [] → endsBare false k.items = false)
-    (hrest : ChainOK (some ic) reg (some k.result) calls2)
-    (hpre : endsBare false pre = false)
-    (hcore : CoreStep ic ic' reg (pre.foldl Item.apply k.ctx) ctoks) :
-    ∃ m5 m6 c5, runToks m1 (pre.flatMap Item.toks ++ (ctoks ++ (post.flatMap Item.toks ++ calls2.flatMap Call.toks))) = .ok m5 ∧
-      M.enter { m5 with st := .end } = .ok m6 ∧ m6.cur = some c5 ∧ m6.curIsInitial = false ∧ m6.unparsed = [] ∧
-      m6.initial = some ic' ∧ m6.done ++ [c5] = m1.done ++ (k :: calls2).map Call.result := by
-  rw [hk] at hitems
-  obtain ⟨hipre, hipost⟩ := ItemsOK_append (some ic) reg pre post false k.ctx hitems
-  rw [hpre] at hipost
-  have hipre' : ItemsOK m1.initial m1.registry false k.ctx pre := by rw [hi1, hg1]; exact hipre
-  have hb1 : Btw false m1 k.ctx := by simpa [Btw] using hr1
-  obtain ⟨m2, hrun2, hb2, hf2⟩ := items_step pre hb1 hipre'
-  rw [hpre] at hb2
-  have hr2 : Ready m2 (pre.foldl Item.apply k.ctx) := by simpa [Btw] using hb2
-  have hinit2 : m2.initial = some ic := by rw [hf2.1, hi1]
-  have hreg2 : m2.registry = reg := by rw [hf2.2.2.1, hg1]
-  have hd2 : m2.done = m1.done := hf2.2.1
-  obtain ⟨fl, g, hrun3, hin3⟩ := hcore m2 hr2 hinit2 hreg2
-  have hr3e := ready_erased hr2 ic' fl g
-  have hrel3 : Rel (m2.withCore ic' fl g) ((m2.withCore ic' fl g).reflag none false) :=
-    Or.inr ⟨none, false, rfl, hin3, inert_noflag _ rfl⟩
-  have hipost' : ItemsOK ((m2.withCore ic' fl g).reflag none false).initial ((m2.withCore ic' fl g).reflag none false).registry
-      false (pre.foldl Item.apply k.ctx) post := by
-    have e1 : ((m2.withCore ic' fl g).reflag none false).initial = some ic' := rfl
-    have e2 : ((m2.withCore ic' fl g).reflag none false).registry = reg := hreg2
-    rw [e1, e2]; exact ItemsOK_congr ic ic' hfl reg post _ _ hipost
-  have hb3e : Btw false ((m2.withCore ic' fl g).reflag none false) (pre.foldl Item.apply k.ctx) := by simpa [Btw] using hr3e
-  obtain ⟨m4e, hrun4, hb4, hf4⟩ := items_step post hb3e hipost'
-  have hres : post.foldl Item.apply (pre.foldl Item.apply k.ctx) = k.result := by
-    simp [Call.result, hk, List.foldl_append]
-  rw [hres] at hb4
-  have hinit4 : m4e.initial = some ic' := by rw [hf4.1]; rfl
-  have hreg4 : m4e.registry = reg := by rw [hf4.2.2.1]; exact hreg2
-  have hd4 : m4e.done = m1.done := by rw [hf4.2.1]; exact hd2
-  have key : ∃ m5e c5 pend, runToks ((m2.withCore ic' fl g).reflag none false)
-        (post.flatMap Item.toks ++ calls2.flatMap Call.toks) = .ok m5e ∧ Btw pend m5e c5 ∧
-        m5e.initial = some ic' ∧ c5.missingPositional = [] ∧ m5e.done ++ [c5] = m1.done ++ (k :: calls2).map Call.result := by
-    cases calls2 with
-    | nil =>
-      refine ⟨m4e, k.result, endsBare false post, ?_, hb4, hinit4, hrest _ rfl, ?_⟩
-      · simp only [List.flatMap_nil, List.append_nil]; exact hrun4
-      · rw [hd4]; simp
-    | cons k2 r2 =>
-      have hnb : endsBare false post = false := by
-        have := hlast (by simp)
-        rw [hk, endsBare_append, hpre] at this; exact this
-      rw [hnb] at hb4
-      have hr4 : Ready m4e k.result := by simpa [Btw] using hb4
-      obtain ⟨m5e, c5, pend, hrun5, hb5, hi5, _, _, hm5, hd5⟩ :=
-        chain_step (some ic') reg (k2 :: r2) hr4 hinit4 hreg4 (ChainOK_congr ic ic' hfl reg _ _ hrest)
-      refine ⟨m5e, c5, pend, ?_, hb5, hi5, hm5, ?_⟩
-      · rw [runToks_append, hrun4]; exact hrun5
-      · rw [hd5, hd4]; simp
-  obtain ⟨m5e, c5, pend, hrun5e, hb5, hi5, hm5, hdone⟩ := key
-  rcases runToks_rel (post.flatMap Item.toks ++ calls2.flatMap Call.toks) _ _ hrel3 with ⟨e, _, h2⟩ | ⟨m5, m5e', hrun5, h2, hrel5⟩
-  · rw [hrun5e] at h2; cases h2
-  · rw [hrun5e] at h2
-    have : m5e' = m5e := (Except.ok.inj h2).symm
-    subst this
-    obtain ⟨m6, hfin, hcur6, hni6, hunp6, hi6, hd6⟩ := finish_rel hrel5 hb5 hm5
-    refine ⟨m5, m6, c5, ?_, hfin, hcur6, hni6, hunp6, by rw [hi6, hi5], by rw [hd6]; exact hdone⟩
-    rw [runToks_append, hrun2]
-    simp only [bind, Except.bind]
-    rw [runToks_append, hrun3]
-    exact hrun5
-
 /-- calls that are followed by something: each admissible, none ending with a bare optional-value flag -/
 def PrefixOK (ic : Option Ctx) (reg : List Ctx) : Option Ctx → List Call → Prop
   | _, [] => True
@@ -126,8 +54,7 @@ theorem prefix_step (ic : Option Ctx) (reg : List Ctx) : ∀ (calls : List Call)
 theorem run_with_core_later (ic ic' : Ctx) (reg : List Ctx) (ign : Bool) (k0 : Call) (r0 : List Call) (k : Call)
     (pre post : List Item) (calls2 : List Call) (ctoks : List Tok) (hfl : ic'.flags = ic.flags) (hk : k.items = pre ++ post)
     (hok : ChainOK (some ic) reg (some ic) ((k0 :: r0) ++ k :: calls2))
-    (hpre : endsBare false pre = false)
-    (hcore : CoreStep ic ic' reg (pre.foldl Item.apply k.ctx) ctoks) :
+    (hcore : CoreStepB ic ic' reg (pre.foldl Item.apply k.ctx) ctoks) :
     ∃ m5 m6 c5, runToks (M.start (some ic) reg ign)
         ((k0 :: r0).flatMap Call.toks ++ argvWithCore k pre post ctoks calls2) = .ok m5 ∧
       M.enter { m5 with st := .end } = .ok m6 ∧ m6.cur = some c5 ∧ m6.curIsInitial = false ∧ m6.unparsed = [] ∧
@@ -150,7 +77,7 @@ theorem run_with_core_later (ic ic' : Ctx) (reg : List Ctx) (ign : Bool) (k0 : C
   have hlk : m3.lookupCtx k.tname = some k.ctx := by simpa [M.lookupCtx, hg3] using hfindk
   obtain ⟨m4, hrun4, hr4, hi4, hd4, hg4, _⟩ := step_switch hr3 k.tname k.ctx hnamek hlk
   obtain ⟨m5, m6, c5, hrun5, hfin, h1, h2, h3, h4, h5⟩ :=
-    run_with_core_from ic ic' reg k pre post calls2 ctoks hfl hk m4 hr4 (by rw [hi4, hi3]) (by rw [hg4, hg3]) hitemsk hlast hrest hpre hcore
+    run_with_core_from ic ic' reg k pre post calls2 ctoks hfl hk m4 hr4 (by rw [hi4, hi3]) (by rw [hg4, hg3]) hitemsk hlast hrest hcore
   refine ⟨m5, m6, c5, ?_, hfin, h1, h2, h3, h4, ?_⟩
   · have e0 : (k0 :: r0).flatMap Call.toks = [k0.tname] ++ (k0.items.flatMap Item.toks ++ r0.flatMap Call.toks) := by
       simp [List.flatMap_cons, Call.toks]
@@ -171,13 +98,12 @@ theorem run_with_core_later (ic ic' : Ctx) (reg : List Ctx) (ign : Bool) (k0 : C
 theorem taskPass_with_core_later (ic ic' : Ctx) (reg : List Ctx) (k0 : Call) (r0 : List Call) (k : Call)
     (pre post : List Item) (calls2 : List Call) (ctoks : List Tok) (hfl : ic'.flags = ic.flags) (hk : k.items = pre ++ post)
     (hok : ChainOK (some ic) reg (some ic) ((k0 :: r0) ++ k :: calls2))
-    (hpre : endsBare false pre = false)
-    (hcore : CoreStep ic ic' reg (pre.foldl Item.apply k.ctx) ctoks)
+    (hcore : CoreStepB ic ic' reg (pre.foldl Item.apply k.ctx) ctoks)
     (hbody : ∀ t ∈ (k0 :: r0).flatMap Call.toks ++ argvWithCore k pre post ctoks calls2, t ≠ ['-', '-']) :
     taskPass ic reg ((k0 :: r0).flatMap Call.toks ++ argvWithCore k pre post ctoks calls2) =
       .ok { contexts := ic' :: ((k0 :: r0) ++ k :: calls2).map Call.result, unparsed := [], remainder := [] } := by
   obtain ⟨m5, m6, c5, hrun, hfin, hcur6, hni6, hunp6, hi6, hd6⟩ :=
-    run_with_core_later ic ic' reg false k0 r0 k pre post calls2 ctoks hfl hk hok hpre hcore
+    run_with_core_later ic ic' reg false k0 r0 k pre post calls2 ctoks hfl hk hok hcore
   have hall : ∀ t ∈ (k0 :: r0).flatMap Call.toks ++ argvWithCore k pre post ctoks calls2, (decide (t ≠ ['-', '-'])) = true := by
     intro t ht; simpa using hbody t ht
   have htw := takeWhile_all (fun (x : Tok) => decide (x ≠ ['-', '-'])) _ hall
@@ -221,8 +147,7 @@ theorem program_with_core_later (ic ic' : Ctx) (reg : List Ctx) (k0 : Call) (r0 
     (hfl : ic'.flags = ic.flags) (hinv : ic'.inverse = ic.inverse) (hmiss' : ic'.missingPositional = [])
     (hk : k.items = pre ++ post)
     (hok : ChainOK (some ic) reg (some ic) ((k0 :: r0) ++ k :: calls2))
-    (hpre : endsBare false pre = false)
-    (hcore : CoreStep ic ic' reg (pre.foldl Item.apply k.ctx) ctoks)
+    (hcore : CoreStepB ic ic' reg (pre.foldl Item.apply k.ctx) ctoks)
     (hcore0 : CoreStep0 ic ic' ctoks)
     (hbodyA : ∀ t ∈ (k0 :: r0).flatMap Call.toks ++ argvWithCore k pre post ctoks calls2, t ≠ ['-', '-'])
     (hbodyB : ∀ t ∈ ctoks ++ ((k0 :: r0) ++ k :: calls2).flatMap Call.toks, t ≠ ['-', '-']) :
@@ -240,7 +165,7 @@ theorem program_with_core_later (ic ic' : Ctx) (reg : List Ctx) (k0 : Call) (r0 
       simp [List.flatMap_cons, Call.toks]
     have h1 := corePass_with ic ic [] k0.tname ((k0.items.flatMap Item.toks ++ r0.flatMap Call.toks) ++ argvWithCore k pre post ctoks calls2)
       (coreStep0_nil ic) hm hnf hf hi hm (by rw [List.nil_append, ← e]; exact hbodyA)
-    have h2 := taskPass_with_core_later ic ic' reg k0 r0 k pre post calls2 ctoks hfl hk hok hpre hcore hbodyA
+    have h2 := taskPass_with_core_later ic ic' reg k0 r0 k pre post calls2 ctoks hfl hk hok hcore hbodyA
     unfold programParse
     rw [e]
     have h1' : corePass ic (k0.tname :: ((k0.items.flatMap Item.toks ++ r0.flatMap Call.toks) ++ argvWithCore k pre post ctoks calls2)) = _ := h1
